@@ -132,6 +132,10 @@ def judge(ctx, cases):
 
 def run(ctx):
     rng = random.Random(ctx.seed)
+    # E1: the design model of the two constructors (right-hand sides, forward sweep, closing row, back substitution) over
+    # exact rationals: what the sweeps leave is the spline of the contract, for every small knot vector / data / end slopes
+    vlib.e1(ctx, "MC_SplineSweep", "SplineSweep", ["Begin", "Forward", "Close", "Back"],
+            cfg="MC_SplineSweep.cfg" if ctx.tier == "quick" else "MC_SplineSweep_thorough.cfg", workers=4, timeout=1800)
     lat = lattice(ctx)
     judge(ctx, lat + seeded(ctx, rng, 400 if ctx.tier == "quick" else 4000))
     ctx.notes["lattice_cases"] = len(lat)
